@@ -14,6 +14,8 @@ Section SchedProofs.
   Variable create : bool -> string -> V.
   Variable maxc : Z.
   Variable star : bool.
+  Variable lencheck : bool.
+  Variable storable : V -> bool.
   Implicit Types c : @caches V.
 
   (* what a thread state will return, computed with no cache at all *)
@@ -45,13 +47,14 @@ Section SchedProofs.
 
   (* one step of one thread: the memo invariant holds on, nothing is ever removed, the thread still denotes the same answer *)
   Lemma step_sound c ts : Inv create c -> present c ts ->
-    let '(ts', c') := step create maxc star c ts in
+    let '(ts', c') := step create maxc star lencheck storable c ts in
     Inv create c' /\ denote ts' = denote ts /\ present c' ts' /\
     (forall s text, str_assoc text (sel s c) <> None -> str_assoc text (sel s c') <> None).
   Proof.
     intros HI Hp. destruct ts as [[a|text k]|text k|text k|text k|a|]; cbn [step].
     - repeat split; auto.
-    - destruct (str_assoc text (sel star c)) as [v|] eqn:E; repeat split; auto. cbn. congruence.
+    - destruct (str_assoc text (sel star c)) as [v|] eqn:E; [repeat split; auto; cbn; congruence|].
+      destruct (storable (create star text)); [destruct lencheck|]; repeat split; auto.
     - destruct (path_cache_full _ _); repeat split; auto.
     - repeat split.
       + intros s text' p H. destruct (Bool.eqb s star) eqn:Es.
@@ -81,7 +84,7 @@ Section SchedProofs.
   Proof. intros H. destruct ts; cbn; auto. Qed.
 
   Lemma sched_step_good c ths answers i : good c ths answers ->
-    let '(ths', c') := sched_step create maxc star (ths, c) i in good c' ths' answers.
+    let '(ths', c') := sched_step create maxc star lencheck storable (ths, c) i in good c' ths' answers.
   Proof.
     intros [HI HF]. cbn [sched_step].
     destruct (nth_error ths i) as [ts|] eqn:En; [|split; assumption].
@@ -91,7 +94,7 @@ Section SchedProofs.
       - inversion HF as [|? a0 ? ? Hhd Htl]; subst. destruct (IH i _ Htl En) as [a Ha]. exists a. exact Ha. }
     destruct Hts as [a [Ha [Hd Hp]]].
     pose proof (step_sound c ts HI Hp) as Hs.
-    destruct (step create maxc star c ts) as [ts' c']. destruct Hs as [HI' [Hd' [Hp' Hm]]].
+    destruct (step create maxc star lencheck storable c ts) as [ts' c']. destruct Hs as [HI' [Hd' [Hp' Hm]]].
     split; [exact HI'|].
     clear - HF En Ha Hd Hd' Hp' Hm. revert i answers HF En Ha.
     induction ths as [|t0 r IH]; intros [|i] answers HF En Ha; cbn in En; try discriminate;
@@ -105,11 +108,11 @@ Section SchedProofs.
   Qed.
 
   Lemma run_schedule_good : forall schedule c ths answers, good c ths answers ->
-    let '(ths', c') := run_schedule create maxc star (ths, c) schedule in good c' ths' answers.
+    let '(ths', c') := run_schedule create maxc star lencheck storable (ths, c) schedule in good c' ths' answers.
   Proof.
     induction schedule as [|i r IH]; intros c ths answers H; cbn [run_schedule fold_left]; [exact H|].
     pose proof (sched_step_good c ths answers i H) as Hs.
-    destruct (sched_step create maxc star (ths, c) i) as [ths1 c1]. apply (IH c1 ths1 answers Hs).
+    destruct (sched_step create maxc star lencheck storable (ths, c) i) as [ths1 c1]. apply (IH c1 ths1 answers Hs).
   Qed.
 
   Lemma initial_good c (ps : list (@prog V A)) : Inv create c ->
@@ -121,11 +124,11 @@ Section SchedProofs.
   (* interleaving = isolation: after ANY schedule, a thread that is done holds the answer it computes alone, no thread has
      failed, and the threads that are not done still denote their isolated answers *)
   Theorem interleaving_equals_isolation_lemma (ps : list (@prog V A)) c schedule : Inv create c ->
-    let '(ths, c') := run_schedule create maxc star (map (@TRun V A) ps, c) schedule in
+    let '(ths, c') := run_schedule create maxc star lencheck storable (map (@TRun V A) ps, c) schedule in
     Inv create c' /\ Forall2 (fun ts p => denote ts = Some (run_pure create star p)) ths ps.
   Proof.
     intros HI. pose proof (run_schedule_good schedule c _ _ (initial_good c ps HI)) as H.
-    destruct (run_schedule create maxc star (map (@TRun V A) ps, c) schedule) as [ths c']. destruct H as [HI' HF].
+    destruct (run_schedule create maxc star lencheck storable (map (@TRun V A) ps, c) schedule) as [ths c']. destruct H as [HI' HF].
     split; [exact HI'|].
     clear - HF. revert ths HF. induction ps as [|p r IH]; intros ths HF; cbn in HF; inversion HF as [|? ? ? ? Hhd Htl]; subst; constructor.
     - destruct Hhd as [G1 _]. exact G1.
@@ -133,11 +136,11 @@ Section SchedProofs.
   Qed.
 
   Corollary done_threads_hold_isolated_answers (ps : list (@prog V A)) schedule i a :
-    nth_error (fst (run_schedule create maxc star (map (@TRun V A) ps, empty) schedule)) i = Some (TDone a) ->
+    nth_error (fst (run_schedule create maxc star lencheck storable (map (@TRun V A) ps, empty) schedule)) i = Some (TDone a) ->
     exists p, nth_error ps i = Some p /\ a = run_pure create star p.
   Proof.
     intros H. pose proof (interleaving_equals_isolation_lemma ps empty schedule (empty_inv create)) as Hs.
-    destruct (run_schedule create maxc star (map (@TRun V A) ps, empty) schedule) as [ths c']. destruct Hs as [_ HF]. cbn in H.
+    destruct (run_schedule create maxc star lencheck storable (map (@TRun V A) ps, empty) schedule) as [ths c']. destruct Hs as [_ HF]. cbn in H.
     clear - HF H. revert i ps HF H. induction ths as [|t r IH]; intros [|i] ps HF H; cbn in H; try discriminate;
       inversion HF as [|? p0 ? ? Hhd Htl]; subst.
     - inversion H; subst. cbn in Hhd. inversion Hhd. exists p0. split; reflexivity.
@@ -145,10 +148,10 @@ Section SchedProofs.
   Qed.
 
   Corollary no_thread_fails (ps : list (@prog V A)) schedule i :
-    nth_error (fst (run_schedule create maxc star (map (@TRun V A) ps, empty) schedule)) i <> Some TKeyError.
+    nth_error (fst (run_schedule create maxc star lencheck storable (map (@TRun V A) ps, empty) schedule)) i <> Some TKeyError.
   Proof.
     intros H. pose proof (interleaving_equals_isolation_lemma ps empty schedule (empty_inv create)) as Hs.
-    destruct (run_schedule create maxc star (map (@TRun V A) ps, empty) schedule) as [ths c']. destruct Hs as [_ HF]. cbn in H.
+    destruct (run_schedule create maxc star lencheck storable (map (@TRun V A) ps, empty) schedule) as [ths c']. destruct Hs as [_ HF]. cbn in H.
     clear - HF H. revert i ps HF H. induction ths as [|t r IH]; intros [|i] ps HF H; cbn in H; try discriminate;
       inversion HF as [|? p0 ? ? Hhd Htl]; subst.
     - inversion H; subst. cbn in Hhd. discriminate.
